@@ -66,7 +66,8 @@ def new_game(case):
     fake = FakeShuffle(*case.get("shuffle", [0, 0]))
     install_shuffle(fake)
     g = cls(deck=list(case["deck"]), discard=list(case["discard"]), p1_hand=list(case["p1"]), p2_hand=list(case["p2"]),
-            turn=t, first_turn=t, max_turns=case.get("max_turns"))
+            turn=t, first_turn=t, max_turns=case.get("max_turns"),
+            **({"public_hud": {}} if case.get("hud0") == "empty" else {}))
     g._cv_fake = fake
     return g
 
